@@ -28,6 +28,7 @@ Inductive expr :=
 | EBin (op : binop) (e1 e2 : expr)
 | EIsNone (e : expr) | EIsNotNone (e : expr)
 | EIsInst (e : expr) (k : cref)
+| EIsInstL (e : expr) (ks : list cref)   (* isinstance(e, (K1, ..., Kn)) *)
 | ENot (e : expr) | EAnd (e1 e2 : expr) | EOr (e1 e2 : expr)
 | ETuple (es : list expr)
 | EIndex (e : expr) (i : nat)
